@@ -4,7 +4,7 @@ import json, subprocess
 ALL = ["C%02d" % i for i in range(1, 18)]
 CHECKS = {
  "C01": dict(
-   text="Bounded-exhaustive differential model checking on the real code: every rule of the bounded universe x 16 switch sets x every iteration order of every hooked optimiser-local map (stateless DFS over cfg-guarded choice points) x the full product of per-field document alphabets; the optimised verdict must equal the unoptimised one and optimise/matches must not panic. Violations are localised to pass@site:kind signatures so that the recorded defects do not mask new ones.",
+   text="Bounded-exhaustive differential model checking on the real code: every rule of the bounded universe x 16 switch sets x every iteration order of every hooked optimiser-local map (stateless DFS over cfg-guarded choice points) x the full product of per-field document alphabets; the optimised verdict must equal the unoptimised one and optimise/matches must not panic. Violations are localised to pass@site:kind signatures so that the recorded defects do not mask new ones. Additionally the four passes are applied by hand through core::optimiser in every order of every subset with coalesce first or absent (order-specific verdict changes only), and core::solve / core::solve_expression / solve must agree with Rule::matches.",
    note="Bounds: universe sizes in the evidence; trusted: regex, aho-corasick, serde_yaml; PermMap over-approximates std HashMap orders; the pass-by-pass replica of Rule::optimise is conformance-checked against Rule::optimise on every rule x switch set.",
    technique="stateless explicit-state exploration of hash-order choice points + exhaustive input enumeration, differential oracle",
    ref="5/C01"),
@@ -59,12 +59,12 @@ CHECKS = {
    technique="bounded-exhaustive differential enumeration across representations",
    ref="5/C11"),
  "C12": dict(
-   text="Four exhaustive dimensions: (1) all iteration orders of every hooked optimiser map per rule x switch set - printed tree must be unique; (2) explicit-state search over all document sequences of length 4 on one shared rule - one reachable observable state, verdicts equal a fresh rule's; (3) shuttle DFS over ALL interleavings of matches() from 2-3 threads sharing Arc<Rule> at Document::find granularity, deviation-bounded DFS for 4-16 threads; (4) per-rule digests across child processes that handle the rules in different orders and environments, and every ordered pair of a state-sensitive rule slice in its own fresh process.",
+   text="Four exhaustive dimensions: (1) all iteration orders of every hooked optimiser map per rule x switch set - printed tree must be unique; (2) explicit-state search over all document sequences of length 4 on one shared rule - one reachable observable state, verdicts equal a fresh rule's; (3) shuttle DFS over ALL interleavings of matches() from 2-3 threads sharing Arc<Rule> at Document::find granularity, deviation-bounded DFS for 4-16 threads; (4) per-rule digests across child processes that handle the rules in different orders and environments, and every ordered pair of a state-sensitive rule slice in its own fresh process. Later additions, all exhaustive within their bounds: every iteration order of the rule's own identifiers map (2-4 identifiers, all n! orders drawn until realised) x 6 switch sets; every sequence up to depth 3/4 over nine pure API operations on one rule value against a fresh rule on a fresh thread; every ordered pair (thorough: triple) of optimise() calls with different switch sets on one thread; a confusable-rule family inside the ordered-pair slice; loading/optimising/matching with and without an all-levels tracing subscriber.",
    note="Callback granularity is justified by a source scan re-run on every check (no shared mutable state in the engine); free-running 16-thread run and process comparison are samples, labelled so.",
    technique="explicit-state search over histories + exhaustive controlled-scheduler (shuttle DFS) exploration of interleavings + hash-order choice exploration",
    ref="5/C12"),
  "C13": dict(
-   text="Rules x switch sets x all pairs of example lists (length 0-2) over matching / non-matching / empty / malformed entries; validate() must be Ok(true) iff matches() accepts every positive and rejects every negative, else a Validation error naming exactly the failing examples; never a panic.",
+   text="Rules x switch sets x all pairs of example lists (length 0-2) over matching / non-matching / empty / malformed entries; validate() must be Ok(true) iff matches() accepts every positive and rejects every negative, else a Validation error naming exactly the failing examples; never a panic. Plus explicit search over operation sequences on ONE rule value (validate, assign one of five example-list pairs, optimise, clone, replace the detection) up to depth 3/4: validate() must answer as a freshly loaded rule with the same public fields.",
    note="Examples are identified in the error text by unique marker values, the message format is not pinned.",
    technique="bounded-exhaustive enumeration of example lists with matches() as oracle",
    ref="5/C13"),
@@ -79,7 +79,7 @@ CHECKS = {
    technique="bounded-exhaustive differential enumeration across two builds (configurations)",
    ref="5/C15"),
  "C16": dict(
-   text="Every rule x switch set (all distinct optimised trees) x documents on a recording document that logs every get() on the document and on nested objects: keys asked must be written in the rule, synthetic keys are never asked, and adding unaddressed fields (including the synthetic names) never changes the verdict.",
+   text="Every rule x switch set (all distinct optimised trees) x documents on a recording document that logs every get() on the document and on nested objects: keys asked must be written in the rule, synthetic keys are never asked, and adding unaddressed fields (including the synthetic names) never changes the verdict. A second recorder at Document level checks that every key string presented to Document::find is, verbatim, a key written at the top level of an identifier or a field of the condition.",
    note="Key attribution is by segment name, not exact nesting path.",
    technique="bounded-exhaustive exploration with an execution invariant on the recorded environment interaction",
    ref="5/C16"),
